@@ -225,7 +225,7 @@ def native_replay(scratch, harness, values, log):
     env["RUST_BACKTRACE"] = "0"
     rc, out, secs = run_cmd([exe, "--exact", harness, "--nocapture", "--test-threads", "1"], scratch, 300, env=env)
     if "running 0 tests" in out or "running 1 test" not in out:
-        outcome = "replay-harness-not-found"
+        outcome = "not-replayable-natively (the harness runs against abstract callees that exist only under the verifier)"
     elif "VERIF-REPLAY-VACUOUS" in out:
         outcome = "replay-diverged"
     elif rc == 0:
